@@ -43,8 +43,56 @@ fn forms(out: &mut Out, name: &str, cls: &str, a: &Ciphertext, other: Option<&Ci
     }
 }
 
+/// Larger degrees with 59/60-bit primes (lazy reductions inside the transforms only leave unreduced words when the values are close to
+/// the word size and enough butterfly layers accumulate): every result of every operation must still be valid (canonical residues, consistent
+/// metadata) — decided by `is_valid_for` and by acceptance of the result as an operand; the case lines of such ciphertexts would be too long
+fn large_degree_validity(out: &mut Out, r: &mut Rng, thorough: bool) {
+    for n in if thorough { vec![64usize, 256, 1024] } else { vec![64usize, 512] } {
+        let qs = match pick_primes(r, n, &[60, 59, 60, 60]) { Some(v) => v, None => continue };
+        for scheme in [SchemeType::BFV, SchemeType::BGV, SchemeType::CKKS] {
+            let t = if scheme == SchemeType::CKKS { 0 } else { pick_plain(r, n, 0, &qs) };
+            let s = match make(scheme, n, &qs, t, true, None) { Some(s) => s, None => continue };
+            let ev = &s.evaluator; let sn = scheme_name(scheme);
+            let cls = format!("large-n{}-{}", n, sn);
+            let res = std::panic::catch_unwind(std::panic::AssertUnwindSafe(|| -> Vec<(String, Ciphertext)> {
+                let relin = s.keygen.create_relin_keys(false);
+                let (c1, c2, plain): (Ciphertext, Ciphertext, Plaintext) = if scheme == SchemeType::CKKS {
+                    let enc = CKKSEncoder::new(s.ctx.clone());
+                    let v1: Vec<num_complex::Complex64> = (0..n / 2).map(|i| num_complex::Complex64::new((i % 7) as f64 + 0.5, -((i % 5) as f64))).collect();
+                    let p = enc.encode_c64_array_new(&v1, None, 2f64.powi(30));
+                    (s.encryptor.encrypt_new(&p), { let mut c = Ciphertext::new(); s.encryptor.encrypt_symmetric(&p, &mut c); c }, p)
+                } else { (s.encryptor.encrypt_new(&plain_of(&rand_msg(r, n, t))), s.encryptor.encrypt_new(&plain_of(&rand_msg(r, n, t))), plain_of(&rand_msg(r, n, t))) };
+                let prod = ev.multiply_new(&c1, &c2);
+                let mut v: Vec<(String, Ciphertext)> = vec![("negate".into(), ev.negate_new(&c1)), ("add".into(), ev.add_new(&c1, &c2)), ("sub".into(), ev.sub_new(&c1, &c2)),
+                    ("multiply".into(), prod.clone()), ("square".into(), ev.square_new(&c1)), ("relinearize".into(), ev.relinearize_new(&prod, &relin)),
+                    ("mod_switch".into(), ev.mod_switch_to_next_new(&c1)), ("mod_switch_prod".into(), ev.mod_switch_to_next_new(&prod)),
+                    ("add_plain".into(), ev.add_plain_new(&c1, &plain)), ("sub_plain".into(), ev.sub_plain_new(&c1, &plain)), ("multiply_plain".into(), ev.multiply_plain_new(&c1, &plain))];
+                if scheme == SchemeType::CKKS { v.push(("rescale".into(), ev.rescale_to_next_new(&prod))); }
+                else {
+                    let (cc, cn) = if c1.is_ntt_form() { (ev.transform_from_ntt_new(&c1), c1.clone()) } else { (c1.clone(), ev.transform_to_ntt_new(&c1)) };
+                    v.push(("to_or_from_ntt".into(), if c1.is_ntt_form() { cc.clone() } else { cn.clone() }));
+                    for rep in 0..3 {
+                        let pc = plain_of(&rand_msg(r, n, t));
+                        let pn = { let mut x = pc.clone(); ev.transform_plain_to_ntt_inplace(&mut x, c1.parms_id()); x };
+                        for (a, ct_) in [("coef", &cc), ("ntt", &cn)] { for (b, pt_) in [("coef", &pc), ("ntt", &pn)] {
+                            if let Ok(x) = std::panic::catch_unwind(std::panic::AssertUnwindSafe(|| ev.multiply_plain_new(ct_, pt_))) { v.push((format!("multiply_plain-ct{}-pt{}-{}", a, b, rep), x)); } } }
+                    }
+                }
+                v }));
+            let results = match res { Ok(v) => v, Err(_) => { let m = LAST_PANIC.with(|p| p.borrow().clone()); out.raw(&format!("!FAIL valid_large {} :: an operation on valid operands panicked: {} # {}", cls, m.replace('\n', " "), cls)); continue } };
+            for (nm, c) in &results {
+                let valid = std::panic::catch_unwind(std::panic::AssertUnwindSafe(|| c.is_valid_for(&s.ctx))).unwrap_or(false);
+                let usable = !refused(std::panic::AssertUnwindSafe(|| { let _ = ev.negate_new(c); }));
+                if valid && usable { out.raw(&format!("!OK valid_large {} {} # {}", cls, nm, cls)); }
+                else { out.raw(&format!("!FAIL valid_large {} {} :: the result of a public operation on valid inputs is not valid for the context (is_valid_for={}, accepted by negate={}) # {}", cls, nm, valid, usable, cls)); }
+            }
+        }
+    }
+}
+
 pub fn run(out: &mut Out, thorough: bool, seed: u64, _extra: &[String]) {
     let mut r = Rng::new(seed);
+    { let mut r2 = Rng::new(seed ^ 0x1a26e); large_degree_validity(out, &mut r2, thorough); }
     let programs = if thorough { 120 } else { 12 };
     for pi in 0..programs {
         let scheme = [SchemeType::BFV, SchemeType::BGV, SchemeType::CKKS][pi % 3];
